@@ -4346,9 +4346,38 @@ static Value eval_statement(ASTNode *stmt, Environment *env) {
         case AST_FOR: {
             /* Evaluate range */
             ASTNode *range_expr = stmt->as.for_stmt.range_expr;
-            if (range_expr->type != AST_CALL || strcmp(range_expr->as.call.name, "range") != 0) {
-                fprintf(stderr, "Error: for loop requires range expression\n");
-                return create_void();
+            if (range_expr->type != AST_CALL || !range_expr->as.call.name ||
+                strcmp(range_expr->as.call.name, "range") != 0) {
+                /* for x in <array>: the array is evaluated once, its elements are visited in order */
+                Value arr_val = eval_expression(range_expr, env);
+                if (arr_val.type != VAL_ARRAY && arr_val.type != VAL_DYN_ARRAY) {
+                    fprintf(stderr, "Error: for loop requires a range or an array\n");
+                    return create_void();
+                }
+                int elem_var_index = env->symbol_count;
+                env_define_var(env, stmt->as.for_stmt.var_name, TYPE_UNKNOWN, false, create_void());
+                Value arr_result = create_void();
+                for (long long ai = 0; ; ai++) {
+                    Value len_args[1] = { arr_val };
+                    Value len_val = builtin_array_length(len_args);
+                    if (len_val.type != VAL_INT || ai >= len_val.as.int_val) break;
+                    Value at_args[2] = { arr_val, create_int(ai) };
+                    env->symbols[elem_var_index].value = builtin_at(at_args);
+                    arr_result = eval_statement(stmt->as.for_stmt.body, env);
+                    if (arr_result.is_return) {
+                        env->symbol_count = elem_var_index;
+                        return arr_result;
+                    }
+                    if (arr_result.is_break) {
+                        arr_result = create_void();
+                        break;
+                    }
+                    if (arr_result.is_continue) {
+                        arr_result = create_void();
+                    }
+                }
+                env->symbol_count = elem_var_index;
+                return arr_result;
             }
 
             if (range_expr->as.call.arg_count != 2) {
